@@ -450,6 +450,12 @@ func runC05(rc *RC) {
 		opts.Comp = true // a component's session: the content namespace is jabber:component:accept
 	}
 	strat := rc.S.ConfigureStrategy()
+	// a sixth of the runs: a second session of the process transmits at the same time (half of them with every
+	// statement-level preemption point armed)
+	dual := ch.Chance("workload", 1, 6)
+	if dual && ch.Chance("workload", 1, 2) {
+		rc.S.ForceDense([]int{4, 12, 40}[ch.Int("workload", 3)])
+	}
 	e := rc.NewE2(opts)
 	if e == nil {
 		return
@@ -786,6 +792,12 @@ func runC05(rc *RC) {
 	})
 	serveT := e.Serve(handler)
 	var tasks []*simrt.Task
+	checkSecond := func() {}
+	if dual {
+		var t2 []*simrt.Task
+		t2, checkSecond = c05SecondSession(rc)
+		tasks = append(tasks, t2...)
+	}
 	for i, pl := range plans {
 		pl := pl
 		tasks = append(tasks, rc.Spawn(fmt.Sprintf("caller%d", i), func() {
@@ -855,6 +867,7 @@ func runC05(rc *RC) {
 	_ = lastErr
 
 	// ---- oracle ----
+	checkSecond()
 	tap := e.SUT.Out().Tap
 	w := e.ParseOut()
 	rc.Check("C05.c1", "wire-not-well-formed", w.Err == nil && !w.Partial && w.TopText == "", "the output stream does not parse as a sequence of complete top-level elements: err=%v partial=%v text=%q near %q", w.Err, w.Partial, w.TopText, tail(tap[:min(len(tap), w.ErrOff+60)], 160))
